@@ -74,6 +74,13 @@ ParamsC06 ==
     \cup { Prm(n, t, "Body", "", v) : n \in {"e"}, t \in {"p1.Item", "*p1.Item", "[]p1.Item"}, v \in {"", "required"} }
     \cup { Prm("ctx", "context.Context", "Context", "", "") }
 
+\* ---- C05 / C12: declared validators and enum strictness, as the handler machine understands them (Router!RulePasses, EnumRejected) ----
+ParamsVal ==
+       { Prm("b", "string", k, "", v) : k \in {"Query", "Header", "FormField"}, v \in {"oneof=abc a+b", "required,max=3", "omitempty,oneof=abc a+b"} }
+  \cup { Prm("b", "int", k, "", v) : k \in {"Query", "Header", "FormField"}, v \in {"gte=1", "required,gte=1"} }
+  \cup { Prm("a", "int", "Path", "", "gte=1"), Prm("b", "*int", "Query", "", "omitempty,gte=1"), Prm("a", "string", "Path", "", "oneof=abc a+b") }
+  \cup { Prm("b", t, k, "", "") : t \in {"p1.Color", "*p1.Color"}, k \in {"Query", "Header", "FormField"} } \cup { Prm("a", "p1.Color", "Path", "", "") }
+
 Wire(pm) == IF pm.alias # "" THEN pm.alias ELSE pm.name
 RECURSIVE RouteFor(_, _)
 RouteFor(ps, i) == IF i > Len(ps) THEN "" ELSE (IF ps[i].kind = "Path" THEN "/{" \o Wire(ps[i]) \o "}" ELSE "") \o RouteFor(ps, i + 1)
@@ -102,6 +109,12 @@ CfgsC06 == { Cfg("gin", v, FALSE, NoSec, <<"s1", "oa1">>) : v \in {"3.0.0", "3.1
 CtrlsC06 == { Ctl("p1", "f1", "AController", "/a", "A", <<>>) }
 MethodsC06 == { MthP(verb, ps, ret, errs, resp) : verb \in {"POST"}, ps \in ParamLists, ret \in RetShapes,
                                                     errs \in {<<>>, <<E(500)>>, <<E(400), E(500)>>}, resp \in {0, 201} }
+
+CfgVal(vt, v) == [engine |-> "gin", version |-> v, enforce |-> FALSE, default |-> NoSec, schemes |-> <<"s1">>,
+                  validateTopLevelOnlyEnum |-> vt, generateEnumValidator |-> FALSE, validateResponsePayload |-> FALSE]
+CfgsC05val == { CfgVal(vt, "3.0.0") : vt \in BOOLEAN }
+MethodsC05val == { MthP("POST", <<a>>, <<"error">>, <<>>, 0) : a \in ParamsVal }
+                 \cup { MthP("POST", <<Prm("a", "int", "Path", "", "gte=1"), Prm("b", "p1.Color", "Query", "", ""), Prm("c", "string", "Header", "", "oneof=abc a+b")>>, <<"p1.Item", "error">>, <<>>, 0) }
 
 \* ---- C05 / C06: identifier lists - func (a, b, c string, d int) - must not disturb the signature order ---------------------------
 PG(n, t, k) == Prm(n, t, k, "", "")
